@@ -46,7 +46,7 @@ def cases(tier, seed):
     rng = random.Random(seed * 7919 + 15)
     out = []
     cfgs = [dict(p=1), dict(p=2), dict(p=1, q=1), dict(p=3), dict(p=2, r=1), dict(p=3, r=1), dict(p=4), dict(name='2DPGA'), dict(name='3DPGA'),
-            dict(p=2, start_index=0), dict(p=3, start_index=4)]
+            dict(p=2, start_index=0), dict(p=3, start_index=4), dict(p=2, start_index=3), dict(p=1, start_index=2), dict(p=3, start_index=6), dict(p=1, q=1, r=1, start_index=7)]
     for _ in range(6 if tier == 'quick' else 200):
         d = rng.choice((2, 3, 3, 4))
         pqr = rng.choice(pat.pqr_all(d))
@@ -289,5 +289,65 @@ def _run_errors(desc):
     if alg.graded and d >= 2:
         must_raise('graded-incomplete-grade', lambda: alg.multivector(keys=(1,), values=[1]))
         must_raise('graded-incomplete-grade-kw', lambda: alg.multivector(**{alg.bin2canon[1]: 1}))
+    # ---- keyword form: nothing supplied may be dropped silently
+    names = list(alg.canon2bin)                      # canonical blade names
+    si = alg.start_index
+    gens = [format(si + i, 'x') for i in range(d)]
+    outside = [format(x, 'x') for x in range(16) if format(x, 'x') not in gens]     # generator labels this algebra does not have
+
+    def coeff_or_raise(tag, fn, want: dict, note):
+        """fn() either raises, or returns a multivector holding exactly `want` ({key: value}); anything else drops / moves a coefficient."""
+        try:
+            r = fn()
+        except Exception:
+            return
+        got = dict(zip(r.keys(), r.values()))
+        bad = [k for k in set(got) | set(want) if got.get(k, 0) != want.get(k, 0)]
+        if bad:
+            claims.append(Fail(f'silent:{tag}', f'{note}: returned coefficients {got} (expected {want} or an error)', fkey=f'errors|silently-dropped|{tag}'))
+
+    if d >= 1 and outside and not alg.graded:
+        first = names[1]
+        for o in outside[:4]:
+            coeff_or_raise('keyword-blade-outside-algebra', lambda o=o: alg.multivector(**{first: 1, 'e' + o: 7}), {'__never__': 1},
+                           f'keyword e{o} names no blade of this algebra (generators {gens})')
+        x = alg.multivector(keys=tuple(range(2 ** d)), values=[3 + k for k in range(2 ** d)])
+        for o in outside[:6]:
+            try:
+                v = getattr(x, 'e' + o)
+            except Exception:
+                continue
+            if v != 0:
+                claims.append(Fail('absent-blade-reads-nonzero', f'x.e{o} (no blade of this algebra, generators {gens}) reads {v!r}, expected 0', fkey='errors|absent-blade-reads-nonzero'))
+            if d >= 1:
+                try:
+                    v2 = getattr(x, 'e' + gens[0] + o)
+                except Exception:
+                    continue
+                if v2 != 0:
+                    claims.append(Fail('absent-blade-reads-nonzero', f'x.e{gens[0]}{o} reads {v2!r}, expected 0', fkey='errors|absent-blade-reads-nonzero'))
+    if d >= 2 and not alg.graded:
+        full = [1] * (2 ** d)
+        top = names[-1]
+        coeff_or_raise('keyword-next-to-values', lambda: alg.multivector(list(range(1, 2 ** d + 1)), **{top: 50}),
+                       {'__never__': 1}, 'a keyword coefficient given next to values=')
+        coeff_or_raise('keyword-next-to-keys', lambda: alg.multivector(keys=(1,), values=[2], **{top: 50}),
+                       {'__never__': 1}, 'a keyword coefficient given next to keys=/values=')
+        # two spellings of one blade: the sum of what was supplied, or an error
+        k12 = [k for k in alg.bin2canon if bin(k).count('1') == 2][0]
+        w = alg.bin2canon[k12][1:]
+        sp1, sp2 = 'e' + w, 'e' + w[::-1]
+        from ..kapi import kmap
+        km = kmap(alg)
+        s1, kk1 = km.spelling(sp1)
+        s2, kk2 = km.spelling(sp2)
+        _, kcanon = km.spelling(alg.bin2canon[k12])
+        sc = km.spelling(alg.bin2canon[k12])[0]
+        coeff_or_raise('two-spellings-of-one-blade', lambda: alg.multivector(**{sp1: 1, sp2: 2}), {k12: (s1 * 1 + s2 * 2) * sc},
+                       f'keywords {sp1}=1 and {sp2}=2 (two spellings of one blade)')
+    if alg.graded and d >= 2:
+        must_raise('graded-incomplete-grade-mapping', lambda: alg.multivector({1: 2}))
+        must_raise('graded-incomplete-grade-mapping-names', lambda: alg.multivector({alg.bin2canon[1]: 2}))
+        must_raise('graded-incomplete-grade-vector-mapping', lambda: alg.vector({1: 2}))
     claims.append(Eq('reached', 1, 1))
     return claims
